@@ -55,6 +55,17 @@ def _addr(ctx, form, name, platform):
     if form == "group":
         kw = "object-group" if platform == "ios" else "addrgroup"
         return kw + " GRP" + name.upper(), None, ("group", "GRP" + name.upper(), None)
+    if form.startswith("groupm:"):
+        # address group WITH members attached (each member: free base under the given wildcard mask)
+        kw = "object-group" if platform == "ios" else "addrgroup"
+        members, lines = [], []
+        for k, m in enumerate(form[7:].split("+")):
+            s, v = T.fresh_quad(ctx, f"{name}m{k}_")
+            mi = m2i(m)
+            members.append((v, mi))
+            lines.append(("host " + s) if (mi == 0 and k % 2 == 0) else (s + " " + m))
+        pred = (lambda f, members=members: Or_([addr_pred(f, v, mi) for v, mi in members]))
+        return kw + " GRP" + name.upper(), pred, ("groupm", "GRP" + name.upper(), members, lines)
     s, v = T.fresh_quad(ctx, name)
     if form == "host":
         return "host " + s, (lambda f, v=v: V(f) == V(v)), ("host", v, 0)
@@ -72,12 +83,15 @@ def _addr(ctx, form, name, platform):
     return s + "/" + str(ln), (lambda f, v=v, hm=hm: addr_pred(f, v, hm)), ("wild", v, hm)
 
 
-def _port(ctx, form, name, proto, port_nr, umax_small):
+def _port(ctx, form, name, proto, port_nr, umax_small, hi_all=65535, ordered_range=False):
     """-> (text, predicate(field), (op, operands) | None)"""
     if form == "none":
         return "", True, None
 
-    def free(k, lo=1, hi=65535):
+    def free(k, lo=1, hi=None):
+        hi = hi_all if hi is None else min(hi, hi_all)
+        if not ctx.symbolic:
+            hi = 65535          # replay: values found in a shrunk universe may have been transported to the real one
         p = ctx.fresh(f"{name}{k}", lo, hi)
         if not port_nr:
             # rendering by name walks the name table: keep free ports off the table (names are C09's subject)
@@ -86,7 +100,7 @@ def _port(ctx, form, name, proto, port_nr, umax_small):
     if form in ("eq1", "eq2", "eq3", "neq1", "neq2"):
         op, n = form[:-1], int(form[-1])
         if op == "neq":
-            ops = [free(k, 1, umax_small) for k in range(n)]
+            ops = [free(k, 1, umax_small if n == 1 else min(4, umax_small)) for k in range(n)]     # C(4,2)=6 paths for two operands
         else:
             ops = [free(k) for k in range(n)]
         for a, b in zip(ops, ops[1:]):
@@ -98,6 +112,8 @@ def _port(ctx, form, name, proto, port_nr, umax_small):
         a = free("a")
         b = free("b")
         ctx.assume(And_(V(b) - V(a) <= 2, V(a) - V(b) <= 2))
+        if ordered_range:
+            ctx.assume(V(a) <= V(b))
         ops = [a, b]
     elif form == "eqname":
         nm, nr = EQNAME[proto]
@@ -117,18 +133,19 @@ def uses_universe(row):
     return any(row.get(k, "none") in ("neq1", "neq2", "gt", "lt") for k in ("sp", "dp"))
 
 
-def build_ace(ctx, row, tag=""):
-    """row: platform, port_nr, act, seq, proto, sa, sp, da, dp, flags, log, ws  ->  AceSkel(text, rule, fields...)"""
+def build_ace(ctx, row, tag="", small=8, shrink=None, closed_world=False, ordered_range=False):
+    """closed_world: when the port universe is shrunk, ALL port operands stay inside it (pairs of ACEs)"""
     platform = row["platform"]
     port_nr = row.get("port_nr", True)
     sk = AceSkel()
     sk.row = row
-    shrink = uses_universe(row)
+    if shrink is None:
+        shrink = uses_universe(row)
     if shrink and ctx.symbolic:
         from symx import shims
-        shims.PORT_MAX = 8
-    sk.umax = 8 if (shrink and ctx.symbolic) else 65535
-    small = 8                                          # operand range of neq/gt/lt (inside the shrunk universe)
+        shims.PORT_MAX = small
+    sk.umax = small if (shrink and ctx.symbolic) else 65535
+    hi_all = small if (shrink and closed_world) else 65535
     toks = []
     sk.seq = 0
     if row.get("seq", "none") == "sym":
@@ -149,9 +166,9 @@ def build_ace(ctx, row, tag=""):
         sk.proto = tb.PROTO[pf]
         toks.append(pf)
     sa_t, sk.src_p, sk.src = _addr(ctx, row["sa"], tag + "s", platform)
-    sp_t, sk.sport_p, sk.sport = _port(ctx, row.get("sp", "none"), tag + "sp", pname, port_nr, small)
+    sp_t, sk.sport_p, sk.sport = _port(ctx, row.get("sp", "none"), tag + "sp", pname, port_nr, small, hi_all, ordered_range)
     da_t, sk.dst_p, sk.dst = _addr(ctx, row["da"], tag + "d", platform)
-    dp_t, sk.dport_p, sk.dport = _port(ctx, row.get("dp", "none"), tag + "dp", pname, port_nr, small)
+    dp_t, sk.dport_p, sk.dport = _port(ctx, row.get("dp", "none"), tag + "dp", pname, port_nr, small, hi_all, ordered_range)
     toks += [sa_t, sp_t, da_t, dp_t]
     sk.flags = list(row.get("flags") or [])
     sk.logs = [row["log"]] if row.get("log") else []
@@ -164,6 +181,10 @@ def build_ace(ctx, row, tag=""):
         line = "  " + line + " "
     sk.text = line
     sk.unresolved = sk.src_p is None or sk.dst_p is None
+    sk.kwargs = {}
+    for key, d, t in (("srcaddr", sk.src, sa_t), ("dstaddr", sk.dst, da_t)):
+        if d[0] == "groupm":
+            sk.kwargs[key] = dict(line=t, platform=platform, items=list(d[3]))
     sk.rule = Rule(sk.action, sk.proto, sk.src_p if sk.src_p is not None else True,
                    sk.dst_p if sk.dst_p is not None else True, sk.sport_p, sk.dport_p, sk.flags, sk.seq, sk.logs)
     return sk
